@@ -29,6 +29,7 @@ from dinosaur import time_integration
 from dsim import gen
 from dsim import kernel
 
+MAX_MINIMISED_PER_RUN = 2
 PROP = 'C07'
 P = jax.sharding.PartitionSpec
 RTOL = 1e-9
@@ -749,7 +750,8 @@ def run_one(seed, tier, opts, prop):
       continue
     seen.add(key)
     case = {'config': cfg, 'ops': [ops[v['op_index']]]}
-    mini, evals = minimise(case, v['oracle'])
+    mini, evals = (minimise(case, v['oracle'])
+                   if len(out_v) < MAX_MINIMISED_PER_RUN else (case, 0))
     mlog, mv, _ = execute(mini['config'], mini['ops'])
     mv = [x for x in mv if x['oracle'] == v['oracle']] or [v]
     rep = {'version': 1, 'property': PROP, 'engine': 'X', 'run_seed': seed,
